@@ -344,14 +344,24 @@ func (m *Monitor) srvRecv(client string, b []byte, whole bool, now int64) {
 
 func (m *Monitor) findReq(client string, tid [12]byte, method stun.Method) *mReq {
 	rs := m.reqs[client+"|"+string(tid[:])]
-	var last *mReq
+	var last, firstOpen *mReq
 	for _, r := range rs {
 		if r.Method == method {
 			if !r.Answered {
-				return r
+				// several copies of one request (duplicates, retransmissions) can be
+				// outstanding: the response belongs to the copy whose handler is running
+				if !m.handlerDone(r) {
+					return r
+				}
+				if firstOpen == nil {
+					firstOpen = r
+				}
 			}
 			last = r
 		}
+	}
+	if firstOpen != nil {
+		return firstOpen
 	}
 	return last
 }
